@@ -19,6 +19,7 @@ import (
 	"verif/internal/chaingen"
 	"verif/internal/evid"
 	"verif/internal/l2"
+	"verif/internal/netsim"
 )
 
 // Scenario returns the scenario function for l2.Main / l2.RunScenarios.
@@ -184,11 +185,16 @@ func Run(seed int64, k int, quick bool, res *l2.Result) {
 		if !plan.Unsolicited {
 			return
 		}
-		stopUnsol = make(chan struct{})
+		stop := make(chan struct{})
+		stopUnsol = stop
+		// Everything the sender needs is evaluated here, on the scenario's
+		// goroutine: it must not read scenario state that the rounds write.
+		avoid, seed := plan.Targets(), plan.Seed+int64(len(s.calls))
+		peers := append([]*netsim.Peer(nil), w.Peers...)
 		unsolWg.Add(1)
 		go func() {
 			defer unsolWg.Done()
-			d.RunUnsolicited(stopUnsol, w.Peers, plan.Targets(), plan.Seed+int64(len(s.calls)))
+			d.RunUnsolicited(stop, peers, avoid, seed)
 		}()
 	}
 	haltUnsol := func() {
